@@ -474,7 +474,7 @@ func Run(c *vl.Ctx) {
 	fmt.Print(e.Report)
 	fmt.Printf("C14: instrumented build took %.1fs\n", time.Since(c.Start).Seconds())
 	if c.Quick() {
-		c.SetBudget(time.Since(c.Start) + 100*time.Second)
+		c.SetBudget(time.Since(c.Start) + 300*time.Second)
 	} else {
 		c.SetBudget(time.Since(c.Start) + 14*time.Minute)
 	}
